@@ -72,6 +72,7 @@ PROPS['C08'] = dict(
     note='Trusted: Lean kernel, hand-written model of relation.go Tuple/FieldDef, Go map modelled as association list, harness. '
          'Statement-level read-back (flush, eviction, restart) is exercised by the C01/C02/C16 runs, literals by C09/C10.',
     rule='single-column schemas x every boundary value of every kind (exhaustive), then random schemas of 1-8 columns over the four '
+         ' [round 2] plus statement-level limit histories (db c08): rows whose encoding is just below, at and above the 400-byte cell limit by INSERT and by UPDATE, INT range ends, empty strings, NULLs; read back from the cache, after flush + reload, after crash + recovery. '
          'types with valid rows, rows with one invalid column, type-confused rows, absent / explicit-NULL columns, unknown columns, '
          'duplicate assignments and duplicate column names. Non-trivial: non-empty schema and assignment; distinct by text.',
     assumptions=['reflect.Kind of the supplied Go values is int64/string/bool/nil (what parser and csvimport produce)'],
@@ -98,6 +99,7 @@ PROPS['C09'] = dict(
     note='Trusted: Lean kernel, hand-written scanner/parser model, UTF-8 decoding and Unicode tables (supplied per rune by the '
          'harness), strconv.Atoi (modelled), Go stack depth on pathologically deep OR chains (not modelled).',
     rule='corpus of past failures; all token sequences of length 1-2 over the vocabulary (one token per token type plus literal / '
+         ' [round 2] plus every keyword/operator of the token table as a quoted string in three spellings, spans of 1-4 words said twice, and all 81 pairs (and triples c1 c2 c1) of trailing SELECT clauses. '
          'identifier variants) and statement keyword + all length-2 (thorough: 3) sequences; generated statements with two '
          'renderings each, all word-boundary truncations, random cuts, word mutations; unterminated literals; exhaustive boolean '
          'shapes up to 4 predicates; random byte soup; long inputs. Non-trivial: outcome ok or panic (text) / not err (tokens); '
@@ -207,6 +209,7 @@ PROPS['C06'] = dict(
           'order compared with the model, multiset compared with the relational definition by the judge.',
     note=EXEC_NOTE, assumptions=EXEC_ASSUME,
     rule='per database 14 random two-table joins (4 join spellings x 4 ON shapes), 5 fixed alias / ambiguity cases, 6 chains of two '
+         ' [round 2] plus four narrow tables of 1, 2, 3 and 5 columns and 15 joins / join chains over tables of every width on either side (a row merge that shares a backing array only shows when the left row has spare capacity). '
          'joins. Non-trivial: ok with >= 1 row; distinct by SQL text.',
     trusted_base=['models Mkdb/Model/Exec.lean, Mkdb/Spec/Query.lean'],
 )
@@ -223,6 +226,7 @@ PROPS['C07'] = dict(
           'NULL-bearing columns, on top of WHERE and JOIN; the judge recomputes groups, counts and exact averages from the source rows.',
     note=EXEC_NOTE, assumptions=EXEC_ASSUME,
     rule='per database 5 ungrouped aggregate queries, 27 GROUP BY queries (9 grouping column sets x 3 spellings), 2 grouped joins. '
+         ' [round 2] plus a table of adversarial grouping values (strings containing | ; , quotes of type names, "<nil>", "NULL", numerals; NULLs; pairs that collide under any separator-joined key) grouped 8 ways, and a lone count(col) per column with and without WHERE over NULL-bearing data. '
          'Non-trivial: ok with >= 1 row; distinct by SQL text.',
     trusted_base=['models Mkdb/Model/Exec.lean, Mkdb/Spec/Query.lean'],
 )
@@ -285,6 +289,7 @@ PROPS['C14'] = dict(lean=['Mkdb.Props.C14'], facts=STORE_FACTS, runs=[dict(cmd='
           'model compared page by page; the judge requires the tables and catalog of the spec before the statement.',
     note=STORE_NOTE,
     rule='10 (thorough 80) histories of 4-9 failing statements each, n in 1..10 rows with the invalid one at a random position, nine failure families; '
+         ' [round 2] families added: WHERE of DELETE/UPDATE not evaluable at the k-th row (NULL meets a comparison), CREATE TABLE whose table name or k-th column name makes a catalog row exceed the cell limit. '
          'each followed by SELECT * of every table and, at random, reopen or crash+recovery. Non-trivial: a failing multi-row statement with k >= 2; distinct by operation text.',
     assumptions=['statements run one at a time (C13)'],
     trusted_base=['models Mkdb/Model/Store.lean, Engine.lean; Spec/Unchanged.lean'])
@@ -300,7 +305,8 @@ PROPS['C04'] = dict(lean=['Mkdb.Props.C04'], facts=STORE_FACTS, runs=[dict(cmd='
     sig_filter=r'db:(fimage-.*)',
     claim='Proof (partial): C04_torn_flush_recovers - the data files a crash inside flushPages can leave are those in which every page is the cached page as of some earlier moment; for every log of page-local records, every such file and every flush history before it, replay reproduces the acknowledged state; C04_log_cut with C04_write_ahead_needed - the write-ahead rule (no page newer than the log) is sufficient and necessary. Not covered: flushes torn between the pages of a split or before the header write that persists the allocation frontier - there the implementation does lose data (KNOWN FINDING db:fimage-(loss|recovery-failed):*:alloc1, see KNOWN_FINDINGS.txt) - and a second crash inside the flush that ends recovery. Tie: for flushes triggered explicitly, by CREATE TABLE and by shutdown, a hook copies data/ immediately before every page write and before the header write, in the page order the Go map iteration produced; each image is recovered by the real InitStorage in a child process and every table is compared with the spec of the acknowledged statements; the model reproduces each torn image from the observed write order and must recover to the same heap.',
     note='Trusted: Lean kernel (axioms propext, Classical.choice, Quot.sound only), the hand-written models, the harness and hooks, the OS file system behaving as a byte array per file with fsync making earlier writes durable. Theorems are about the models; the code is covered through the correspondence and the judge, which are bounded.',
-    rule='8 (thorough 64) histories with 2-5 instrumented flushes each, one image per page write and per header write (10-40 images per flush). Non-trivial: an image with at least one but not all pages written; distinct by image operation text. Images are classified by flush kind and by whether pages were allocated since the last header write (alloc0/alloc1).',
+    rule='8 (thorough 64) histories with 2-5 instrumented flushes each, one image per page write and per header write (10-40 images per flush). Non-trivial: an image with at least one but not all pages written; distinct by image operation text. Images are classified by flush kind and by whether pages were allocated since the last header write (alloc0/alloc1).'
+         ' [round 2] now 5 (thorough 40) histories; flushes inside recovery are instrumented too (child process leaves an image before each of its page/header writes: the second crash); on every recovered image one more acknowledged statement (DELETE of all rows of a table), a further crash and recovery, and the tables again. Images taken before the first page write are classed apart (":nothing-written"). ',
     assumptions=['page writes are atomic (4096-byte WriteAt) and ordered as issued; the header write is atomic'],
     trusted_base=['models Mkdb/Model/Redo.lean, Store.lean (tornFlush), Engine.lean; hooks verifPoint(page.write|hdr.write)'])
 
@@ -315,7 +321,8 @@ PROPS['C17'] = dict(lean=['Mkdb.Props.C17'], facts=['skeleton.engine.Session.*',
     runs=[dict(cmd='sess', proto='sess')], sig_filter=r'sess:.*',
     claim='Proof (partial by nature for the schedule quantifier): C17_frame - every DDL/DML/SELECT/SHOW statement changes at most the selected database, for every session state and statement; C17_no_database_selected; C17_create_existing, C17_use_missing - errors that leave the session exactly as it was (the previously selected database stays selected and open); C17_create_new; C17_use_current - re-selecting the current database changes nothing; C17_use_other - only the previously selected database is touched (closed); C17_names_are_the_created_ones - after any history the databases are exactly those whose CREATE DATABASE returned ok; C17_show - SHOW DATABASES returns a permutation of them. Not covered by a theorem: that closing (flush) and restart (recovery) preserve contents - that is C02/C04 and the correspondence here - and the real flush timer of an abandoned relation service. Tie: random sessions over 2-4 databases through engine.Session.ExecQuery with real pauses longer than the flush interval and restarts (close, InitStorage, new session); outputs and per-database SELECT * are compared with the model, and the judge checks isolation against a per-database in-memory spec.',
     note='Trusted: Lean kernel (axioms propext, Classical.choice, Quot.sound only), the hand-written models, the harness and hooks, the OS file system behaving as a byte array per file with fsync making earlier writes durable. Theorems are about the models; the code is covered through the correspondence and the judge, which are bounded.',
-    rule='sessions of 20-80 statements; CREATE DATABASE / USE (existing, missing, current, mixed case) / SHOW DATABASES interleaved with DDL/DML; pauses of 120-250 ms; 0-3 restarts. Non-trivial: a session that switches databases at least twice with data in both; distinct by session text.',
+    rule='sessions of 20-80 statements; CREATE DATABASE / USE (existing, missing, current, mixed case) / SHOW DATABASES interleaved with DDL/DML; pauses of 120-250 ms; 0-3 restarts. Non-trivial: a session that switches databases at least twice with data in both; distinct by session text.'
+         ' [round 2] plus 14 scripted sessions: every statement kind after a refused USE / refused CREATE DATABASE, with and without a database selected before. ',
     assumptions=['one session at a time (the engine has no concurrent sessions)'],
     trusted_base=['model Mkdb/Model/Session.lean over Engine.lean/Store.lean'])
 LOCK_FACTS = ['skeleton.engine.Evaluate*', 'skeleton.storage.fileStore.flushPages', 'skeleton.storage.newFileStore', 'skeleton.storage.RelationService.CreateTable',
@@ -337,6 +344,7 @@ PROPS['C13'] = dict(
          'detector (happens-before, independent of the timing observed). Labelled partial: thread interleavings of the real runtime are '
          'sampled, not proved.',
     rule='2 (thorough 16) rounds of parked INSERT / UPDATE / DELETE, each held for 350 ms inside its log append; a storm of about '
+         ' [round 2] plus 12 (thorough 96) INSERT statements of 900-2600 rows started at every phase of the 100 ms timer, counting page/header writes between the first lock acquisition of the statement and its return (hooks txn.begin / page.write / hdr.write). '
          '1-5 s of CREATE TABLE + DML + SELECT on fresh tables across timer ticks under -race. Non-trivial: parked statements and a '
          'storm of more than 10 tables; distinct by scenario.',
     assumptions=['a data race on shared page/cache state is reported by the race detector when both accesses occur in the run'],
